@@ -4,7 +4,7 @@ Part 1 (mut.sweep): every operation of ops.enum_ops that the model refuses (uniq
 match, invalid position / target, unsupported move) must leave view.obs() unchanged.
 Part 2 (here): a user callback raising at its k-th invocation, for every k, during every operation
 that takes one: calc_data_id (add / set_data / find / `in`), predicate (filter, filtered, copy),
-mapper (save, to_dict_list, to_dot, from_dict), sort key, visitor, match callback.  Mutators must
+mapper (save, to_dict_list, to_dot, Node.from_dict below a fresh leaf), sort key, visitor, match callback.  Mutators must
 leave wf(T) intact (C01-C03); read-only operations must leave obs() unchanged.
 """
 from __future__ import annotations
@@ -48,6 +48,14 @@ def _ops_with_callbacks(tree, nodes):
     out.append(("Tree.to_dict_list(mapper)", True, lambda cb: tree.to_dict_list(mapper=lambda n, d: (cb(n), d)[1])))
     out.append(("Tree.to_dot(node_mapper)", True, lambda cb: list(tree.to_dot(node_mapper=lambda n, d: cb(n)))))
     out.append(("Tree.format(repr)", True, lambda cb: tree.format(repr=lambda n: (cb(n), n.name)[1])))
+    # from_dict below a fresh leaf, from the tree's own dict form: the mapper raising at its k-th call must leave a well-formed
+    # tree (whatever was built so far is attached *and* registered, or neither)
+    def _from_dict(cb):
+        lst = tree.to_dict_list()
+        leaf = tree.add("fresh_leaf_for_from_dict")
+        leaf.from_dict(lst, mapper=lambda parent, item: (cb(parent), item["data"])[1])
+
+    out.append(("Node.from_dict(mapper)", False, _from_dict))
     for i, nd in enumerate(nodes[:2]):
         out.append((f"Node.filter(predicate)@{i}", False, lambda cb, nd=nd: nd.filter(lambda n: (cb(n), False)[1])))
         out.append((f"Node.sort_children(key)@{i}", False, lambda cb, nd=nd: nd.sort_children(key=lambda n: (cb(n), n.name)[1], deep=True)))
